@@ -177,4 +177,14 @@ def obligations(tier, sc):
                       oracle="every int64 put on a channel whose registered type has labels is 0 or labelled (thread and cpu pcf); "
                              "task-type channel carries only the ghost task type gid",
                       **base_desc)))
+    # ---- header duration = time of the LAST EVENT: prv_writer shows that prv_close writes the last time given to
+    # prv_advance; that every event (also one that changes no channel) advances every trace to its time before the
+    # model runs is C03's `E_paraver_time` obligation on the real emu_step / recorder_advance / pvt_advance /
+    # prv_advance, re-run under this property (a seeded change skipped the advance for events that leave no
+    # channel dirty: the header then carried the time of the last channel-changing event).
+    from checks import C03 as _c03
+    for ob in _c03.obligations(tier, sc):
+        if ob.name == "E_paraver_time":
+            ob.name = "every_event_advances_trace_time"
+            obs.append(ob)
     return obs
